@@ -281,6 +281,13 @@ def opWorld (st : St) (op : String) (a : KV) : St × String :=
     let (f, r) := w.fan.attach indef (parseFloatMap (a.str "data" "nil"))
     let w := { w with fan := f }
     ({ st with world := w }, (match r with | .ok _ => "ok " | _ => "err ") ++ worldState w)
+  | "w.setmap" =>
+    match parseIntMap (a.str "map" "nil") with
+    | some m =>
+      let distinct := (extractKeys m).toArray
+      let w := { w with ctl := { w.ctl with pwmMap := some m, distinct := distinct } }
+      ({ st with world := w }, s!"ok distinct={fmtInts distinct.toList} " ++ worldState w)
+    | none => (st, "bad-op")
   | "w.dev" => let w := { w with dev := applyDev w.dev a }; ({ st with world := w }, "ok " ++ worldState w)
   | "w.cycle" =>
     let (w', r, o) := updateFanSpeed indef w (parseCurveRes (a.str "curve" "0")) (a.int "now" 0)
@@ -307,7 +314,7 @@ def opWorld (st : St) (op : String) (a : KV) : St × String :=
 def parseSensorIo (k : SensorKind) (a : KV) : SensorIo :=
   match k with
   | .cmd =>
-    if a.int "exit" 0 != 0 then .execErr
+    if a.int "exit" 0 != 0 || a.int "start" 1 == 0 then .execErr   -- start=0: the command could not be started at all
     else match a.str "pv" "err" with
       | "err" => .parseErr
       | s => .parsed (parseF ((s.drop 3).toString))
